@@ -19,7 +19,7 @@ pub struct BoundingBox { pub x1: R32, pub y1: R32, pub x2: R32, pub y2: R32 }
 /// ghost: the texts handed to eval_attr, in order
 pub struct Ctx { pub evaluated: Ghost<Seq<Seq<char>>>, pub rest: CtxRest }
 
-//@rewrite f32 strlit
+//@rewrite f32 strlit continue
 //@item src/element.rs :: struct SvgElement
 //@end
 
@@ -51,7 +51,6 @@ impl SvgElement {
 //@ strlit "__"
 //@ replace[R-opaque-type] <<<ctx: &impl ContextView>>> => <<<ctx: &mut Ctx>>>
 //@ replace[R-iter-vec] <<<for (key, value) in self.attrs.clone() {>>> => <<<for (key, value) in attr_pairs(&self.attrs) {>>>
-//@ replace[R-continue] <<<                // Raw comments are not evaluated\n                continue;\n            }\n            let replace = eval_attr(&value, ctx)?;\n            self.attrs.insert(&key, &replace);\n        }>>> => <<<                // Raw comments are not evaluated\n            } else {\n            let replace = eval_attr(&value, ctx)?;\n            self.attrs.insert(&key, &replace);\n            }\n        }>>>
 //@ replace[R-iter-vec] <<<for class in &self.classes.clone() {>>> => <<<for class in class_items(&self.classes) {>>>
 //@ replace[R-ref] <<<self.classes.replace(class, eval_attr(class, ctx)?);>>> => <<<self.classes.replace(&class, eval_attr(&class, ctx)?);>>>
 //@ before <<<for (key, value) in attr_pairs(&self.attrs) {>>>
